@@ -186,6 +186,12 @@ def make_server(seed: Any, rp: dict[str, Any] | None, switches: dict[str, bool] 
 
     params = RandomUDSServer.RandomnessParameters(**rp) if rp else None
     beh = UDSServer.Behavior(**switches) if switches else None
+    if switches and all(switches.values()):
+        # "all rules on" is the documented default: take it from the code's own defaults (no behaviour object / an object built
+        # without arguments) instead of spelling every switch out, so that the defaults themselves are observed
+        import zlib
+
+        beh = (None, UDSServer.Behavior(), beh)[zlib.crc32(repr(seed).encode()) % 3]
     return RandomUDSServer(seed, params, beh)
 
 
